@@ -335,6 +335,15 @@ func (c *c16Cast) runCell(cell c16Cell) (obs c16Obs, want []string) {
 			}
 			look()
 			expect()
+			// a further refresh (the issuer publishes a list which no longer contains the second serial): being refreshed
+			// is not a one-time thing
+			publish(cell.Signer, 1)
+			tick()
+			if accept(cell.Signer) {
+				inForce = 1
+			}
+			look()
+			expect()
 		}
 		// restart with the origin down: what was in force must still be (disk) / nothing (memory)
 		net.Down(c16URL)
